@@ -179,13 +179,13 @@ def mk_union(pairs):
             elif sort in ("bv", "bits"):
                 e = members[-1][1].e
                 for gi, vi in reversed(members[:-1]):
-                    e = z3.If(to_z3(gi), vi.e, e)
+                    e = z3.If(to_z3(compact(gi)), vi.e, e)
                 v = Sym(sort, e)
             else:
                 want_real = sort == "real"
                 e = num_z3(members[-1][1], want_real)
                 for gi, vi in reversed(members[:-1]):
-                    e = z3.If(to_z3(gi), num_z3(vi, want_real), e)
+                    e = z3.If(to_z3(compact(gi)), num_z3(vi, want_real), e)
                 v = Sym(sort, e)
         out.append((g, v))
     if len(out) == 1:
@@ -278,11 +278,12 @@ class VList(VObj):
 
 class SlotRef:
     """index value produced by enumerate() over a VList: denotes slot j (position symbolic)"""
-    __slots__ = ("lst", "j")
+    __slots__ = ("lst", "j", "before")
 
-    def __init__(self, lst, j):
+    def __init__(self, lst, j, before=()):
         self.lst = lst
         self.j = j
+        self.before = before  # presence guards of the slots in front of j when the index was produced
 
     def __repr__(self):
         return f"<slot {self.j}>"
@@ -445,6 +446,10 @@ def sym_binop(op, a, b):
         if op in ("==", "!=") and not ((sa or isinstance(a, int)) and (sb or isinstance(b, int))):
             return op == "!="
         za, zb = bz(a, sa), bz(b, sb)
+        if op == "+":
+            return _bits(za + zb)
+        if op == "-":
+            return _bits(za - zb)
         if op == "&":
             return _bits(za & zb)
         if op == "|":
